@@ -477,9 +477,22 @@ impl<'source> CodeGenerator<'source> {
                 self.add(Instruction::PushWith);
                 self.compile_expr(&from_import.expr);
                 self.add_with_span(Instruction::Include(false), from_import.span());
+                // the names are taken from what the imported template itself
+                // defined.  A plain lookup would fall through to the importer's
+                // own variables and the globals for names the module lacks.
+                self.add(Instruction::LoadConst(Value::UNDEFINED));
+                self.add(Instruction::ExportLocals);
                 for (name, _) in &from_import.names {
-                    self.compile_expr(name);
+                    self.add(Instruction::DupTop);
+                    if let ast::Expr::Var(var) = name {
+                        self.add_with_span(Instruction::GetAttr(var.id), name.span());
+                    } else {
+                        self.compile_expr(name);
+                        self.add(Instruction::GetItem);
+                    }
+                    self.add(Instruction::Swap);
                 }
+                self.add(Instruction::DiscardTop);
                 self.add(Instruction::PopFrame);
                 for (name, alias) in from_import.names.iter().rev() {
                     self.compile_assignment(alias.as_ref().unwrap_or(name));
